@@ -370,6 +370,16 @@ func runOp(c any, ctxs map[string]context.Context, op Op) (res Result) {
 	return Result{Err: "unknown op " + op.Op}
 }
 
+// RunOp executes one operation (exported for the schedule explorer and the race pass).
+func RunOp(c any, ctxs map[string]context.Context, op Op) Result { return runOp(c, ctxs, op) }
+
+// MakeCtx attaches a named context before threads start (the context map is not written concurrently).
+func MakeCtx(c any, ctxs map[string]context.Context, name string) {
+	base, cancel := context.WithCancel(context.Background())
+	_ = cancel
+	ctxs[name] = container.ContextWithContainer(base, c.(API))
+}
+
 // dumpState reads the container's private caches (shared services, parameters, per-context bags) by
 // reflection: the canonical state of the cache/override state machine explored by HIST-X.
 func dumpState(api API, ctxs map[string]context.Context) Node {
